@@ -1086,18 +1086,7 @@ def gen_flat(rng):
 # the property
 
 K_SHOIST = 'shoist-hoisted-argument-order'
-K_COLON = 'reduction-over-colon-section-not-a-separator'
 SEQ_PIPELINES = ('svector', 'shoist')
-
-
-def colon_class_listed():
-    """inputs of the class K_COLON are generated only once the class is listed as an open finding"""
-    from ..core import load_known
-    try:
-        return any(k.get('property') == 'C37' and k.get('class') == K_COLON and k.get('status', 'open') == 'open'
-                   for k in load_known())
-    except Exception:       # pylint: disable=broad-except
-        return False
 
 
 def has_colon_reduction(prog):
@@ -1216,12 +1205,12 @@ class C37(Prop):
     extra_obligations = ['flat-kernel chain correspondence']
 
     def classes(self):
-        return [K_SHOIST, K_EMPTY, K_COLON]
+        return [K_SHOIST, K_EMPTY]
 
     def gen(self, rng, tier):
         n_scc, n_flat, gf = {'quick': (14, 10, 0), 'thorough': (60, 40, 1), 'search': (30, 20, 0)}.get(tier, (14, 10, 0))
         pipes = list(PIPELINES)
-        colon = colon_class_listed()
+        colon = True      # `a(:)` arguments of reductions: repaired in /repo (fix wave 5), generated unconditionally
         for k in range(n_flat):
             cfg, unit, ins = gen_flat(rng)
             cs = rng.randint(1, 10 ** 6) if k % 2 else 0
@@ -1278,10 +1267,7 @@ class C37(Prop):
             st, val = _transformed(req)
             if st == 'raise':
                 return [Failure(f'pipeline {pipeline} raised {val}', None)]
-            fs = check_tree(prog, ins, val, pipeline, gf)
-            if pipeline not in SEQ_PIPELINES and has_colon_reduction(prog):
-                fs = [(w, K_COLON if c is None and w.startswith(('interpreter:', 'gfortran:')) else c) for w, c in fs]
-            return [Failure(w, c) for w, c in fs]
+            return [Failure(w, c) for w, c in check_tree(prog, ins, val, pipeline, gf)]
         raise ValueError('bad request')
 
     def shrink_candidates(self, req):
